@@ -62,6 +62,22 @@ func readSnapLog(p string) []snapEntry {
 	return out
 }
 
+// c09DotSlash respells the pattern of the pattern-only rules as ./<pattern> (absolute patterns stay).
+func c09DotSlash(rules [][]string) [][]string {
+	out := make([][]string, 0, len(rules))
+	for _, r := range rules {
+		cp := append([]string{}, r...)
+		if len(cp) == 2 && !strings.HasPrefix(cp[1], "/") && cp[1] != "" {
+			switch strings.ToUpper(cp[0]) {
+			case "ALLOW", "DISALLOW", "CREATE", "DELETE", "MODIFY":
+				cp[1] = "./" + cp[1]
+			}
+		}
+		out = append(out, cp)
+	}
+	return out
+}
+
 func c09Rules(r *rand.Rand, prefix string, products bool) [][]string {
 	p := func(name string) string { return prefix + name }
 	vocab := [][]string{
@@ -324,7 +340,14 @@ func runC09(c *core.Ctx) {
 				run = []string{ne}
 			}
 			specs = append(specs, s)
-			inspections = append(inspections, gen.Inspection(s.Name, run, s.Mats, s.Prods))
+			implMats, implProds := s.Mats, s.Prods
+			if i%6 == 1 {
+				// the layout spells the patterns of its ALLOW / DISALLOW / CREATE / DELETE / MODIFY rules with a
+				// leading "./" (as layouts written by hand or completed by parameters do); they mean the same
+				// artifacts - the reference keeps the plain spelling
+				implMats, implProds = c09DotSlash(s.Mats), c09DotSlash(s.Prods)
+			}
+			inspections = append(inspections, gen.Inspection(s.Name, run, implMats, implProds))
 		}
 		layout := gen.NewLayout([]intoto.Step{gen.Step("package", 1, gen.KeyIDs(fast[1]), nil, [][]string{{"ALLOW", "*"}})}, inspections, gen.KeyMap(fast[1]))
 		md, err := gen.SignedMeta(layout, dsse, fast[0].Priv)
@@ -546,7 +569,7 @@ func init() {
 	core.Register(&core.Property{
 		ID:    "C09",
 		Level: "exploration",
-		Rule: "seeded cases: final-product directory = the last step's products with files {untouched, added, added under a name of the kind tools like to ignore (*.pyc, *~, .git, .DS_Store...), added under a non-ASCII name that a DISALLOW *.evil rule must catch, removed, modified, modified in line endings only, a 150 KB product whose CR LF pairs straddle 4 KiB ... 128 KiB block boundaries where the step recorded LF (the same file under normalisation) or LF LF (another file)}, in a quarter of the cases plus a symlink to a directory that sorts first; 0-3 inspections (every 19th case: a first inspection without any rule, then at least one more) whose command is `vhelper inspect` with an action from {no-op, create / modify / delete a file, replace a file by other content of the same size with its modification time restored, exit 1/2/127/255, kill 9/15} or a missing / non-executable program; inspection rule lists drawn from a 20-24-rule vocabulary (incl. REQUIRE with names that would match as patterns) (MATCH against the last step's products/materials with and without IN <run dir>, against an earlier inspection, ALLOW/DISALLOW/REQUIRE/CREATE/MODIFY/DELETE with run-dir-prefixed names) + terminal DISALLOW *; step link recorded with sha256 / sha256+sha512 / sha512 only; step-phase defect in 1/7 of the cases; entry points plain, run dir relative (a fifth of these named through a symbolic link to its parent), run dir absolute; both wrappers; line normalisation on in 1/3. Plus: a unix socket next to / in the place of the final product (must not verify; control verifies). Oracle: reference rule interpreter over the directory snapshots the command itself logged (before/after, raw or normalised digests) and the step links; execution order / exactly once / not after a failing command / not before the step checks from the log and the inspection_exec events. " +
+		Rule: "seeded cases: final-product directory = the last step's products with files {untouched, added, added under a name of the kind tools like to ignore (*.pyc, *~, .git, .DS_Store...), added under a non-ASCII name that a DISALLOW *.evil rule must catch, removed, modified, modified in line endings only, a 150 KB product whose CR LF pairs straddle 4 KiB ... 128 KiB block boundaries where the step recorded LF (the same file under normalisation) or LF LF (another file)}, in a quarter of the cases plus a symlink to a directory that sorts first; 0-3 inspections (every 19th case: a first inspection without any rule, then at least one more) whose command is `vhelper inspect` with an action from {no-op, create / modify / delete a file, replace a file by other content of the same size with its modification time restored, exit 1/2/127/255, kill 9/15} or a missing / non-executable program; inspection rule lists drawn from a 20-24-rule vocabulary (incl. REQUIRE with names that would match as patterns) (MATCH against the last step's products/materials with and without IN <run dir>, against an earlier inspection, ALLOW/DISALLOW/REQUIRE/CREATE/MODIFY/DELETE with run-dir-prefixed names) + terminal DISALLOW * (in a sixth of the cases the layout spells these patterns ./<pattern>); step link recorded with sha256 / sha256+sha512 / sha512 only; step-phase defect in 1/7 of the cases; entry points plain, run dir relative (a fifth of these named through a symbolic link to its parent), run dir absolute; both wrappers; line normalisation on in 1/3. Plus: a unix socket next to / in the place of the final product (must not verify; control verifies). Oracle: reference rule interpreter over the directory snapshots the command itself logged (before/after, raw or normalised digests) and the step links; execution order / exactly once / not after a failing command / not before the step checks from the log and the inspection_exec events. " +
 			"non-trivial = at least one inspection; distinct = hash of the whole case",
 		Assumptions: []string{"an empty run list is not generated (the statement does not say what should happen)", "the snapshot taken inside the command equals what the library records directly before/after it"},
 		Workers:     func(string) int { return 16 },
